@@ -66,6 +66,9 @@ class Ops:
         if isinstance(e, ast.Call) and isinstance(e.func, ast.Name) and e.func.id == "len" and len(e.args) == 1 \
                 and not e.keywords and self.is_items(e.args[0]):
             return "(zlen (items self))"
+        if isinstance(e, ast.Call) and isinstance(e.func, ast.Name) and e.func.id == "len" and len(e.args) == 1 \
+                and not e.keywords and isinstance(e.args[0], ast.Name) and e.args[0].id == "self":
+            return "(lenZ self)"                       # __len__ = len(item_index_map); lenZ is defined in Gen/C11_Src.v
         _fail(e, "integer expression")
 
     def cond(self, e):
@@ -77,6 +80,9 @@ class Ops:
                 return "(opt_is_none %s)" % self.opt
             if isinstance(op, ast.Eq):
                 return "(opt_eqb %s %s)" % (self.opt, self.int(r))
+        if isinstance(e, ast.Compare) and len(e.ops) == 1 and isinstance(e.ops[0], ast.Lt) \
+                and isinstance(e.left, ast.Name) and e.left.id in self.ints:
+            return "(%s <? %s)%%Z" % (e.left.id, self.int(e.comparators[0]))
         if isinstance(e, ast.Compare) and len(e.ops) == 1 and isinstance(e.ops[0], ast.NotIn) \
                 and isinstance(e.left, ast.Name) and e.left.id == self.key and self.is_map(e.comparators[0]):
             return "(negb (d_mem (imap self) %s))" % self.key
@@ -112,7 +118,7 @@ class Ops:
             b = self.block(s.orelse + rest, ind + "  ")
             self.alias, self.ints, self.slots = saved
             return sp + "if %s then (\n%s%s) else (\n%s%s)\n" % (self.cond(s.test), a, sp, b, sp)
-        if isinstance(s, ast.Try) and s.body and isinstance(s.body[0], ast.Assign):
+        if isinstance(s, ast.Try) and s.body and isinstance(s.body[0], ast.Assign) and isinstance(s.body[0].value, ast.Call):
             # try: n = self.item_index_map.pop(P)  except KeyError: raise KeyError(P)
             ok = (len(s.body) == 1 and len(s.handlers) == 1 and not s.orelse and not s.finalbody
                   and isinstance(s.body[0], ast.Assign) and len(s.body[0].targets) == 1
@@ -138,6 +144,38 @@ class Ops:
                     + sp + "| Some (%s, %s) =>\n" % (n, m)
                     + sp + "  let self := set_imap self %s in\n" % m
                     + self.block(rest, ind + "  ")
+                    + sp + "end\n")
+        if isinstance(s, ast.AugAssign) and isinstance(s.target, ast.Name) and s.target.id in self.ints \
+                and isinstance(s.op, (ast.Add, ast.Sub)):
+            op = "+" if isinstance(s.op, ast.Add) else "-"
+            return sp + "let %s := (%s %s %s)%%Z in\n" % (s.target.id, s.target.id, op, self.int(s.value)) + k()
+        # try: v = self.item_list[n]  except IndexError: raise IndexError(...)
+        if isinstance(s, ast.Try) and len(s.body) == 1 and isinstance(s.body[0], ast.Assign) \
+                and isinstance(s.body[0].value, ast.Subscript) and self.is_items(s.body[0].value.value):
+            hs = s.handlers
+            if not (len(hs) == 1 and not s.orelse and not s.finalbody and isinstance(hs[0].type, ast.Name)
+                    and hs[0].type.id == "IndexError" and len(hs[0].body) == 1 and isinstance(hs[0].body[0], ast.Raise)
+                    and isinstance(hs[0].body[0].exc, ast.Call) and isinstance(hs[0].body[0].exc.func, ast.Name)
+                    and hs[0].body[0].exc.func.id == "IndexError"):
+                _fail(s, "try statement")
+            return self.block([s.body[0]] + rest, ind)       # the plain read already maps IndexError to IndexError
+        # try: return self._get_apparent_index(self.item_index_map[P])  except KeyError: ...; raise ValueError(...)
+        if isinstance(s, ast.Try) and len(s.body) == 1 and isinstance(s.body[0], ast.Return):
+            v, hs = s.body[0].value, s.handlers
+            ok = (isinstance(v, ast.Call) and _is_self_attr(v.func, "_get_apparent_index") and len(v.args) == 1
+                  and not v.keywords and isinstance(v.args[0], ast.Subscript) and self.is_map(v.args[0].value)
+                  and isinstance(v.args[0].slice, ast.Name) and v.args[0].slice.id == self.key
+                  and len(hs) == 1 and not s.orelse and not s.finalbody and isinstance(hs[0].type, ast.Name)
+                  and hs[0].type.id == "KeyError" and hs[0].body and isinstance(hs[0].body[-1], ast.Raise)
+                  and isinstance(hs[0].body[-1].exc, ast.Call) and isinstance(hs[0].body[-1].exc.func, ast.Name)
+                  and hs[0].body[-1].exc.func.id == "ValueError"
+                  and all(isinstance(x, ast.Assign) and len(x.targets) == 1 and isinstance(x.targets[0], ast.Name)
+                          and not any(isinstance(n, ast.Call) for n in ast.walk(x.value)) for x in hs[0].body[:-1]))
+            if not ok or rest:
+                _fail(s, "try statement")
+            return (sp + "match d_get (imap self) %s with\n" % self.key
+                    + sp + "| None => (self, Raise ValueError)\n"
+                    + sp + "| Some _v => (self, Ok (RNat (Z.to_nat (src_get_apparent_index self (Z.of_nat _v)))))\n"
                     + sp + "end\n")
         # try: self.remove(P)  except KeyError: pass
         if isinstance(s, ast.Try) and len(s.body) == 1 and isinstance(s.body[0], ast.Expr) \
@@ -213,6 +251,10 @@ class Ops:
                     and len(v.args) == 1 and not v.keywords and isinstance(v.args[0], ast.Name) and v.args[0].id == self.opt:
                 self.ints.add(t.id)
                 return sp + "let %s := src_get_real_index self (opt_get %s) in\n" % (t.id, self.opt) + k()
+            if isinstance(t, ast.Name) and isinstance(v, ast.Call) and _is_self_attr(v.func, "_get_real_index") \
+                    and len(v.args) == 1 and not v.keywords and isinstance(v.args[0], ast.Name) and v.args[0].id in self.ints:
+                self.ints.add(t.id)
+                return sp + "let %s := src_get_real_index self %s in\n" % (t.id, v.args[0].id) + k()
             # v = self.item_list[n]
             if isinstance(t, ast.Name) and isinstance(v, ast.Subscript) and self.is_items(v.value):
                 self.slots.add(t.id)
@@ -275,7 +317,7 @@ def _method(tree, name):
     return fn[0]
 
 
-HEADER = """(* GENERATED on every run by harness/translators/c11_ops.py from %s (IndexedSet.remove, pop, add, discard, clear, reverse, sort); do not edit. *)
+HEADER = """(* GENERATED on every run by harness/translators/c11_ops.py from %s (IndexedSet.remove, pop, add, discard, clear, reverse, sort, index, __getitem__ on an int); do not edit. *)
 From Boltons Require Import Lib.Prelude Lib.PySrc Lib.C11_Iface Model.C11_Model Lib.C11_PyImp Gen.C11_Src Gen.C11_Cull.
 """
 
@@ -313,4 +355,27 @@ def generate(repo):
     text += simple_method("reverse", ["self"], "")
     # sorted(self, **kwargs) is an input of the generated function: any function from the items to a list of items
     text += simple_method("sort", ["self"], " (sorted_fn : list K -> list K)")
+    text += simple_method("index", ["self", "val"], " (val : K)", key_param="val")
+    # __getitem__: the dispatch on the argument's type must be literally the known prelude; the integer path follows
+    gi = _method(tree, "__getitem__")
+    if [a.arg for a in gi.args.args] != ["self", "index"] or gi.args.defaults:
+        raise Unsupported("unexpected signature of __getitem__")
+    prelude = ast.parse(GETITEM_PRELUDE).body[0]
+    if not gi.body or ast.dump(gi.body[0]) != ast.dump(prelude):
+        raise Unsupported("__getitem__ does not start with the expected slice/int dispatch")
+    o = Ops()
+    o.ints.add("index")
+    text += "Definition src_getitem_int (self : iset) (index : Z) : iset * res ret :=\n" + \
+        o.block(gi.body[1:], "  ").rstrip("\n") + ".\n"
     return {"C11_Ops": text}
+
+
+GETITEM_PRELUDE = '''
+try:
+    start, stop, step = index.start, index.stop, index.step
+except AttributeError:
+    index = operator.index(index)
+else:
+    iter_slice = self.iter_slice(start, stop, step)
+    return self.from_iterable(iter_slice)
+'''
